@@ -3,7 +3,7 @@ from warnings import warn
 
 import numpy as np
 
-from .normals import compute_face_normals, compute_vertex_normals
+from .normals import as_float_points, compute_face_normals, compute_vertex_normals
 from .. import PointCloud
 from ..adjacency import mask_adjacency_array, reindex_adjacency_array
 
@@ -406,7 +406,7 @@ class TriMesh(PointCloud):
         ValueError
             If mesh is not 2D or 3D
         """
-        t = self.points[self.trilist]
+        t = as_float_points(self.points)[self.trilist]
         ij, ik = t[:, 1] - t[:, 0], t[:, 2] - t[:, 0]
         if self.n_dims == 2:
             return np.abs((ij[:, 0] * ik[:, 1] - ij[:, 1] * ik[:, 0]) * 0.5)
@@ -492,7 +492,7 @@ class TriMesh(PointCloud):
             The ordering is done so that each triangle is returned in order
             e.g. [AB_1, BC_1, CA_1, AB_2, BC_2, CA_2, ...]
         """
-        t = self.points[self.trilist]
+        t = as_float_points(self.points)[self.trilist]
         return np.hstack(
             (t[:, 1] - t[:, 0], t[:, 2] - t[:, 1], t[:, 2] - t[:, 0])
         ).reshape(-1, self.n_dims)
@@ -558,7 +558,7 @@ class TriMesh(PointCloud):
         unique_edge_vectors : ``(n_unique_edges, n_dims)`` `ndarray`
             Vectors for each unique edge in this :map:`TriMesh`.
         """
-        x = self.points[self.unique_edge_indices()]
+        x = as_float_points(self.points)[self.unique_edge_indices()]
         return x[:, 1] - x[:, 0]
 
     def edge_lengths(self):
